@@ -702,9 +702,9 @@ class Checker:
                     self.bad(d, 'uag', p, 'a pair', f'{type(e).__name__}: {e}', 'get_unitary_and_grad raises')
                     break
                 g2 = np.asarray(g2)
-                ok = np.abs(np.asarray(U2) - U).max() <= 1e-13 * scale and tuple(getattr(U2, 'radixes', g.radixes)) == tuple(g.radixes)
+                ok = np.abs(np.asarray(U2) - U).max() <= 1e-12 * scale * max(1.0, np.abs(p).max() if np_ else 1.0) and tuple(getattr(U2, 'radixes', g.radixes)) == tuple(g.radixes)
                 if np_ > 0:
-                    ok = ok and g2.shape == gk.shape and np.abs(g2 - gk).max() <= 1e-12 * scale * (1 + np.abs(gk).max())
+                    ok = ok and g2.shape == gk.shape and np.abs(g2 - gk).max() <= 1e-12 * scale * max(1.0, np.abs(p).max()) * (1 + np.abs(gk).max())
                 if not ok:
                     self.bad(d, 'uag', p, 'equal to (get_unitary, get_grad)', 'differs',
                              'get_unitary_and_grad disagrees with get_unitary/get_grad')
@@ -1025,6 +1025,102 @@ def check_equivalent_args(ck: Checker):
 
 
 # ----------------------------------------------------------------------------------------
+# CachedClass: which constructor calls return the same instance (model gate/EqHash.v)
+# ----------------------------------------------------------------------------------------
+def check_cached_class(ck: Checker):
+    ctx = ck.ctx
+    rng = ctx.rng
+    g = G()
+    classes = ['HGate', 'ShiftGate', 'ClockGate', 'PDGate', 'CSUMGate', 'IdentityGate', 'ArbitraryCPhaseGate',
+               'SubSwapGate', 'DiagonalGate', 'MPRYGate', 'RSU3Gate']
+    kwnames = {'radix': 0, 'index': 1, 'num_qudits': 2, 'radixes': 3, 'target_qubit': 4, 'qudit_levels': 5}
+    strs = {'0,1;1,0': 0, '0,2;2,0': 1, '1,1;2,2': 2}
+
+    def gen_call():
+        c = rng.choice(classes)
+        r = rng.choice([2, 3, 4])
+        form = rng.randrange(3)
+        if c in ('HGate', 'ShiftGate', 'ClockGate', 'CSUMGate'):
+            return (c, [], {}) if form == 0 else (c, [r], {}) if form == 1 else (c, [], {'radix': r})
+        if c == 'PDGate':
+            i = rng.randrange(r)
+            return [(c, [i, r], {}), (c, [i], {'radix': r}), (c, [], {'index': i, 'radix': r}),
+                    (c, [], {'radix': r, 'index': i})][rng.randrange(4)]
+        if c == 'IdentityGate':
+            n = rng.choice([1, 2])
+            rx = [rng.choice([2, 3]) for _ in range(n)]
+            return [(c, [n], {}), (c, [n, tuple(rx)], {}), (c, [n, list(rx)], {}), (c, [n], {'radixes': tuple(rx)}),
+                    (c, [n, (list(rx),)], {})][rng.randrange(5)]     # the last one: a tuple holding a list
+        if c == 'ArbitraryCPhaseGate':
+            rx = [rng.choice([2, 3]) for _ in range(2)]
+            return [(c, [], {}), (c, [tuple(rx)], {}), (c, [list(rx)], {}), (c, [], {'radixes': tuple(rx)})][rng.randrange(4)]
+        if c == 'SubSwapGate':
+            s_ = rng.choice(sorted(strs))
+            return (c, [3, s_], {}) if form else (c, [3], {'qudit_levels': s_})
+        if c == 'DiagonalGate':
+            n = rng.choice([1, 2])
+            return (c, [], {}) if form == 0 else (c, [n], {}) if form == 1 else (c, [], {'num_qudits': n})
+        if c == 'MPRYGate':
+            n = rng.choice([1, 2])
+            return (c, [n], {}) if form == 0 else (c, [n, n - 1], {}) if form == 1 else (c, [n], {'target_qubit': n - 1})
+        i = rng.randrange(8)
+        return (c, [i], {}) if form else (c, [], {'index': i})
+
+    def enc(v):
+        if isinstance(v, bool):
+            raise ValueError
+        if isinstance(v, int):
+            return str(v)
+        if isinstance(v, str):
+            return '[s %d]' % strs[v]
+        if v is None:
+            return 'none'
+        if isinstance(v, tuple):
+            return '[t %s]' % ' '.join(enc(x) for x in v)
+        return '[l %s]' % ' '.join(enc(x) for x in v)
+
+    seqs = [[gen_call() for _ in range(rng.randint(4, 14))] for _ in range(ctx.n(40, 600))]
+    lines = ['cc [%s]' % ' '.join('[%d [%s] [%s]]' % (classes.index(c), ' '.join(enc(x) for x in a),
+                                                      ' '.join('[%d %s]' % (kwnames[k], enc(v)) for k, v in kw.items()))
+                                  for c, a, kw in seq) for seq in seqs]
+    outs = vf.run_model('gates', lines)
+    for seq, out in zip(seqs, outs):
+        ctx.count('cached_class_sequences')
+        ctx.case(('cc', vf.canon([[c, repr(a), repr(kw)] for c, a, kw in seq])))
+        model = out.split()
+        if len(model) != len(seq):
+            ctx.broken_obligation('CachedClass model failed on a call sequence', out[:300])
+            continue
+        objs = []
+        for c, a, kw in seq:
+            try:
+                objs.append(getattr(g, c)(*a, **kw))
+            except TypeError:
+                objs.append('T')
+            except Exception as e:  # noqa
+                objs.append('E:' + type(e).__name__)
+        bad = None
+        for i in range(len(seq)):
+            if (model[i] == 'T') != (objs[i] == 'T'):
+                bad = (i, i)
+                break
+            for j in range(i):
+                if model[i] != 'T' and model[j] != 'T' and not isinstance(objs[i], str) and not isinstance(objs[j], str):
+                    if (objs[i] is objs[j]) != (model[i] == model[j]):
+                        bad = (j, i)
+                        break
+            if bad:
+                break
+        if bad:
+            ctx.violation({'gate': seq[bad[1]][0], 'clause': 'cached_class_identity'},
+                          dict(calls=[[c, repr(a), repr(kw)] for c, a, kw in seq], pair=list(bad), clause='cached_class_identity'),
+                          'instances identical exactly when the model says so: ' + out,
+                          ['T' if o == 'T' else (o if isinstance(o, str) else hex(id(o))) for o in objs],
+                          'CachedClass instance identity differs from the model of cachedclass.py',
+                          corr='gate/EqHash.v vs bqskit/utils/cachedclass.py')
+
+
+# ----------------------------------------------------------------------------------------
 def exported_classes():
     g = G()
     out = {}
@@ -1097,6 +1193,7 @@ def run(ctx: vf.Ctx):
     check_qiskit(ck)
     check_distinct(ck)
     check_equivalent_args(ck)
+    check_cached_class(ck)
     # catalogue: every exported name is either checked, or listed with the reason
     exp = exported_classes()
     missing = {}
